@@ -150,6 +150,10 @@ def build_std(r, build):
         return _time.struct_time(tuple(r[2]))
     if k == 'struct_time_x':     # fields are arbitrary value recipes
         return _time.struct_time(tuple(build(x) for x in r[2]))
+    if k == 'structseq':         # other struct sequences (some have unnamed or extra fields): class name, field recipes
+        import os
+        cls = {'stat_result': os.stat_result, 'terminal_size': os.terminal_size, 'times_result': os.times_result, 'struct_time': _time.struct_time}[r[2]]
+        return cls(tuple(build(x) for x in r[3]))
     if k == 'partial':
         cls = functools.partial if r[2] == 'partial' else functools.partialmethod
         return cls(FUNCTIONS[r[3]], *[build(x) for x in r[4]], **{n: build(v) for n, v in r[5]})
